@@ -394,7 +394,7 @@ class RSocketBase(RSocket, RSocketInternal):
             next_fragment = next_frame_source.get_next_fragment(transport.requires_length_header())
 
             if next_fragment.flags_follows:
-                self._send_queue.put_nowait(self._send_queue.get_nowait())  # cycle to next frame source in queue
+                self._cycle_send_queue()  # cycle to next frame source in queue
             else:
                 next_frame_source.get_next_fragment(
                     transport.requires_length_header())  # workaround to clean-up generator.
@@ -405,6 +405,24 @@ class RSocketBase(RSocket, RSocketInternal):
         else:
             self._send_queue.get_nowait()
             yield next_frame_source
+
+    def _cycle_send_queue(self):
+        # Move the partially sent frame source behind the frames of other streams, but keep it ahead of
+        # the frames queued for its own stream: those must not reach the wire before its last fragment.
+        current = self._send_queue.get_nowait()
+        same_stream = []
+        other_streams = []
+
+        while not self._send_queue.empty():
+            item = self._send_queue.get_nowait()
+
+            if item.stream_id == current.stream_id:
+                same_stream.append(item)
+            else:
+                other_streams.append(item)
+
+        for item in other_streams + [current] + same_stream:
+            self._send_queue.put_nowait(item)
 
     async def _sender(self):
         try:
